@@ -45,7 +45,7 @@ def run(u, repo, tier, build):
         harness = os.path.join(ROOT, u["harness"])
         with open(os.path.join(scratch, u["append_to"]), "a") as fh:
             fh.write("\n" + open(harness).read())
-        env = dict(os.environ, CARGO_NET_OFFLINE="true", CARGO_TARGET_DIR=target)
+        env = dict(os.environ, CARGO_NET_OFFLINE="true", CARGO_TARGET_DIR=target, VERIF_TIER=tier)   # the harness widens its scope for thorough
         cmd = ["cargo", "test", "--offline", "-p", u["package"]] + u.get("cargo_args", []) + ["--lib", u["filter"], "--", "--test-threads", "8"]
         res["checker_cmd"] = f"(scratch copy of /repo + {u['harness']} appended to {u['append_to']}) " + " ".join(cmd)
         rc, out, w = sh(cmd, cwd=scratch, env=env, timeout=3000)
